@@ -511,32 +511,27 @@ def vi_dict(ctx: Ctx):
                   f"accumulates into {ast.unparse(a.target.value.value)}{tgt} while enumerating successors of {sa}")
     ctx.check(ok, "DICT-1", f, a, f"{who}: increment = p*reward(s,a,ns) + p*gamma*V[ns]", detail,
               f"the accumulated term normalises to `{detail}`, not to p*reward(s,a,ns) + p*gamma*V[ns] with V the returned state values")
-    # guard: absorbing or cannot-reach states are skipped before accumulation
-    node = cfg.node_for(a)
-    guard = None
-    for n in cfg.nodes:
-        if n.kind == "if" and any(isinstance(b, ast.Continue) for b in n.ast.body):
-            src = ast.unparse(n.ast.test)
-            if "is_absorbing" in src or "_unable_to_reach_absorbing" in src:
-                guard = n
-    if guard is None:
+    # guard: absorbing or cannot-reach states are skipped before accumulation — stated on the path condition of the accumulation, so that
+    # `if C: continue` and `if not C: <accumulate>` are the same thing
+    from ..util import lexical_guards, atomic_facts
+    facts = atomic_facts(lexical_guards(f, a))
+    loopvars = [n.target for n in fn_body_nodes(f) if isinstance(n, ast.For) and any(a is x for x in ast.walk(n))]
+    sname = None
+    for t in loopvars:
+        if isinstance(t, ast.Tuple) and len(t.elts) == 2 and all(isinstance(e_, ast.Name) for e_ in t.elts) and "state_list" in ast.unparse([n for n in fn_body_nodes(f) if isinstance(n, ast.For) and n.target is t][0].iter):
+            sname = (t.elts[0].id, t.elts[1].id)
+    absf = [(t_, tr) for t_, tr in facts if "is_absorbing(" in t_]
+    unrf = [(t_, tr) for t_, tr in facts if "_unable_to_reach_absorbing[" in t_]
+    if not absf and not unrf:
         ctx.violation("DICT-2", f, a, f"{who}: absorbing / cannot-reach guard", "no guard skips absorbing or cannot-reach states before the accumulation")
     else:
-        src = ast.unparse(guard.ast.test)
-        ctx.check("is_absorbing" in src, "DICT-2", f, guard.ast, f"{who}: guard tests is_absorbing(s)", "", "absorbing states are not skipped (they must be worth 0)")
-        ctx.check("_unable_to_reach_absorbing" in src, "DICT-2", f, guard.ast, f"{who}: guard tests _unable_to_reach_absorbing", "", "cannot-reach states are not skipped")
-        ctx.check(isinstance(guard.ast.test, ast.BoolOp) and isinstance(guard.ast.test.op, ast.Or), "DICT-2", f, guard.ast, f"{who}: either condition skips", "", "the guard requires both conditions")
-        ctx.check(cfg.dominates(guard.id, node), "DICT-2", f, a, f"{who}: guard dominates the accumulation", "", "the accumulation can run without passing the guard")
-        am = [n for n in ast.walk(guard.ast.test) if isinstance(n, ast.Call) and "is_absorbing" in ast.unparse(n.func)]
-        loopvars = [n.target for n in fn_body_nodes(f) if isinstance(n, ast.For) and any(guard.ast is x for x in ast.walk(n))]
-        sname = None
-        for t in loopvars:
-            if isinstance(t, ast.Tuple) and len(t.elts) == 2:
-                sname = (t.elts[0].id, t.elts[1].id)
-        if am and sname:
-            ctx.check(ast.unparse(am[0].args[0]) == sname[1], "DICT-2", f, guard.ast, f"{who}: guard is on the state being backed up", "", "guard tests a different state")
-            sub = [n for n in ast.walk(guard.ast.test) if isinstance(n, ast.Subscript) and "_unable" in ast.unparse(n.value)]
-            ctx.check(bool(sub) and ast.unparse(sub[0].slice) == sname[0], "DICT-2", f, guard.ast, f"{who}: cannot-reach mask indexed by the state's own index", "", "mask indexed with a different index")
+        ctx.check(bool(absf) and all(not tr for _, tr in absf), "DICT-2", f, a, f"{who}: guard tests is_absorbing(s)", str(sorted(facts)), "absorbing states are not skipped (they must be worth 0)")
+        ctx.check(bool(unrf) and all(not tr for _, tr in unrf), "DICT-2", f, a, f"{who}: guard tests _unable_to_reach_absorbing", str(sorted(facts)), "cannot-reach states are not skipped")
+        ctx.check(bool(absf) and bool(unrf) and all(not tr for _, tr in absf + unrf), "DICT-2", f, a, f"{who}: either condition skips", "", "the guard requires both conditions")
+        ctx.passed("DICT-2", f, a, f"{who}: guard dominates the accumulation", "path condition of the accumulation statement")
+        if sname:
+            ctx.check(any(t_.endswith(f".is_absorbing({sname[1]})") for t_, _ in absf), "DICT-2", f, a, f"{who}: guard is on the state being backed up", "", "guard tests a different state")
+            ctx.check(any(t_.endswith(f"_unable_to_reach_absorbing[{sname[0]}]") for t_, _ in unrf), "DICT-2", f, a, f"{who}: cannot-reach mask indexed by the state's own index", "", "mask indexed with a different index")
     # actions enumerated are the state's available actions
     fa = [n for n in fn_body_nodes(f) if isinstance(n, ast.For) and isinstance(n.iter, ast.Call) and ast.unparse(n.iter.func).endswith(".actions")]
     ctx.check(bool(fa), "DICT-3", f, fa[0] if fa else f.node, f"{who}: backs up only mdp.actions(s)", "", "actions are not taken from mdp.actions(s)")
